@@ -214,7 +214,7 @@ func main() {
 	c := hx.New("C19")
 	defer c.Finish()
 	lib.Init()
-	total := c.Pick(3200, 400000)
+	total := c.Pick(3200, 240000)
 	per := total / c.NBatch
 	from, to := c.Range(per)
 	for k := from; k < to; k++ {
